@@ -42,6 +42,7 @@ COMPONENTS_STUB = ["entropy source: SimEntropy (entropy= argument and "
 ASSUMPTIONS = ["uniformity argument: equal first-request counts + "
                "memorylessness after rejection => exactly uniform under a "
                "uniform stream", "model ECDSA arithmetic for nonce recovery"]
+HISTORY_DIFF = {"quick": 120, "thorough": 1000}
 SHRINK = [["ops"]]
 REQUIRED_PROBES = {"quick": ["rejection_seen", "default_urandom_path",
                              "nonce_recovered"],
@@ -440,6 +441,7 @@ def execute(prog):
                 if len(dev.dev.log) > 1:
                     core.bump(out["probes"], "rejection_seen")
                     out["nontrivial"] = True
+                log.append(("v", v))
                 if not isinstance(v, int) or not 1 <= v <= n - 1:
                     fail("range/randrange", "randrange(%d) returned %r under "
                          "policy %s (stream %s)" % (
@@ -656,6 +658,7 @@ def execute(prog):
         if real_os is not None:
             lu.os = real_os
     out["digest"] = core.digest_of(log)
+    out["rdigest"] = out["digest"]
     out["steps"] = sum(len(d.log) for d in devices)   # entropy requests
     return out
 
